@@ -1,6 +1,6 @@
 // gen_aac.go: extra generated definitions for package aac (property C11).
-//   - function-local integer tables            Definition aac_<func>__<name> : list Z := [..].
-//     (SampleRateIndex.ToHz keeps its frequency table in a local variable)
+//   - the frequency table of SampleRateIndex.ToHz  Definition aac_ToHz__table : list Z := [..].
+//     (whatever `return T[v]` indexes: local or package-level, any name; literals or named constants)
 //   - AudioSpecificConfig.validate:            the constant case list of `switch v.Object`
 //     (aac_validate__Object_cases) and the constants of the range tests `v.F < c || v.F > c`
 //     (aac_validate__<F>_lt / _gt).  Anything else in validate that is not of this shape makes
@@ -11,6 +11,7 @@ import (
 	"go/ast"
 	"go/constant"
 	"go/token"
+	"go/types"
 	"strings"
 )
 
@@ -20,31 +21,70 @@ func init() {
 			return
 		}
 		for _, fd := range g.funcDecls() {
-			// local tables
-			ast.Inspect(fd.Body, func(n ast.Node) bool {
-				as, ok := n.(*ast.AssignStmt)
-				if !ok || as.Tok != token.DEFINE || len(as.Lhs) != 1 || len(as.Rhs) != 1 {
-					return true
+			// the frequency table of SampleRateIndex.ToHz: whatever `return T[v]` indexes -- a local
+			// variable or a package-level array/slice, under any name -- with elements that are
+			// literals or named constants (values through go/types)
+			if fd.Name.Name == "ToHz" && recvName(fd) == "SampleRateIndex" {
+				if vals, ok := g.indexedTable(fd); ok {
+					g.pf("Definition aac_ToHz__table : list Z := [%s].\n", strings.Join(vals, "; "))
+				} else {
+					g.pf("Definition aac_ToHz__table_unsupported := tt.\n")
 				}
-				cl, ok := as.Rhs[0].(*ast.CompositeLit)
-				if !ok {
-					return true
-				}
-				id, ok := as.Lhs[0].(*ast.Ident)
-				if !ok {
-					return true
-				}
-				if vals, ok := g.intElems(cl); ok {
-					g.pf("Definition aac_%s__%s : list Z := [%s].\n", fd.Name.Name, id.Name, strings.Join(vals, "; "))
-				}
-				return true
-			})
+			}
 			if fd.Name.Name == "validate" && recvName(fd) == "AudioSpecificConfig" {
 				g.aacValidate(fd)
 			}
 		}
 		g.pf("\n")
 	})
+}
+
+// the composite literal behind the table indexed in a `return T[i]` of fd
+func (g *gen) indexedTable(fd *ast.FuncDecl) ([]string, bool) {
+	var target types.Object
+	ast.Inspect(fd.Body, func(n ast.Node) bool {
+		rs, ok := n.(*ast.ReturnStmt)
+		if !ok || len(rs.Results) != 1 {
+			return true
+		}
+		if ix, ok := rs.Results[0].(*ast.IndexExpr); ok {
+			if id, ok := ix.X.(*ast.Ident); ok {
+				target = g.p.TypesInfo.Uses[id]
+			}
+		}
+		return true
+	})
+	if target == nil {
+		return nil, false
+	}
+	var lit *ast.CompositeLit
+	for _, f := range g.p.Syntax {
+		ast.Inspect(f, func(n ast.Node) bool {
+			switch x := n.(type) {
+			case *ast.AssignStmt:
+				for i, l := range x.Lhs {
+					if id, ok := l.(*ast.Ident); ok && g.p.TypesInfo.Defs[id] == target && i < len(x.Rhs) {
+						if cl, ok := x.Rhs[i].(*ast.CompositeLit); ok {
+							lit = cl
+						}
+					}
+				}
+			case *ast.ValueSpec:
+				for i, id := range x.Names {
+					if g.p.TypesInfo.Defs[id] == target && i < len(x.Values) {
+						if cl, ok := x.Values[i].(*ast.CompositeLit); ok {
+							lit = cl
+						}
+					}
+				}
+			}
+			return true
+		})
+	}
+	if lit == nil {
+		return nil, false
+	}
+	return g.intElems(lit)
 }
 
 func (g *gen) aacValidate(fd *ast.FuncDecl) {
